@@ -28,6 +28,17 @@ def main():
 
     rep = Report(a.prop.upper(), a.tier)
     try:
+        import contextlib
+        import io
+
+        from symx import selftest
+
+        buf = io.StringIO()
+        with contextlib.redirect_stdout(buf):
+            bad = selftest.main()
+        if bad:
+            rep.harness_errors.append("SymStr models disagree with CPython: " + buf.getvalue()[:600])
+        rep.engine_notes.append("SymStr method models compared with CPython on 631 strings before the run: " + buf.getvalue().strip().splitlines()[-1])
         mod.run(a.tier, rep, only=a.only)
     except BaseException as ex:  # never let a crash look like a pass
         rep.harness_errors.append("check crashed: %r\n%s" % (ex, traceback.format_exc(limit=12)))
